@@ -161,7 +161,8 @@ def main():
             take = rng2.choice([1, 2, 2, 3])
             classes.append(sorted(rest[:take]))
             rest = rest[take:]
-        parsed = {"classes": frozenset(frozenset(c) for c in classes)}
+        parsed = {"classes": frozenset(frozenset(c) for c in classes),
+                  "i2r": {a: (frozenset(c), min(c) + 1) for c in classes for a in c}}
         v = c19.grounded_classes_verdict(n, rel, parsed)
         if v is not None and "is cut by" not in v:
             raise RuntimeError("unexpected verdict on whole grounded classes: " + v)
